@@ -691,7 +691,7 @@ func lemmaESDTTransferRefunded(e *esdtTransfer, snd vmcommon.UserAccountHandler,
 //@   ensures old(readFailed) ==> readFailed
 //@   ensures faultFree ==> readFailed == old(readFailed)
 //@   ensures[C16,C10] err == nil && !readFailed && senderSide && shardOf(a3) != selfShard ==> warg(seq(out.OutputAccounts[a3].OutputTransfers[0].Data), 3) == reEnc(old0, q)
-//@   ensures[C16] err == nil && !readFailed && senderSide && shardOf(a3) != selfShard ==> vmInput.GasProvided - (out.GasRemaining + fwdGas(out, a3)) == e.funcGasCost + e.gasConfig.DataCopyPerByte * len(reEnc(old0, q))
+//@   ensures[C16] err == nil && !readFailed && senderSide && shardOf(a3) != selfShard ==> vmInput.GasProvided - (out.GasRemaining + fwdGas(out, a3)) == e.funcGasCost + len(reEnc(old0, q)) * e.gasConfig.DataCopyPerByte
 //@   ensures[C16] err == nil && senderSide ==> vmInput.GasProvided - (out.GasRemaining + fwdGas(out, a3)) >= e.funcGasCost
 //@   ensures[C10] err != nil && !senderSide && !failed && !readFailed && vmInput != nil && vmInput.CallValue != nil && bigval(vmInput.CallValue) == 0 && len(vmInput.Arguments) >= 4 && isNil(acntSnd) && !isNil(acntDst) ==> (mustVerify(vmInput, 4) && !payable(rcv)) || (!vmInput.ReturnCallAfterError && rcv != ESDTSC() && (frozen(old(St), rcv, Knft(tok, dMNonce(a3))) || frozenProps(dProps(a3)) || paused(old(St), Kesdt(tok)) || paused(old(St), Knft(tok, dMNonce(a3))))) || (len(old(St)[rcv][Knft(tok, dMNonce(a3))]) != 0 && dHasMeta(old(St)[rcv][Knft(tok, dMNonce(a3))]) && dMHash(old(St)[rcv][Knft(tok, dMNonce(a3))]) != dMHash(a3))
 //@   ensures[C04] err == nil && !readFailed && !vmInput.ReturnCallAfterError && senderSide && snd != ESDTSC() ==> !frozen(old(St), snd, Knft(tok, n)) && !paused(old(St), Kesdt(tok))
